@@ -5,7 +5,7 @@ import vlib
 from props import engine_common as ec
 
 PID = "C01"
-LEAN_MODULES = ["QbiceVerif.Props.C01"]
+LEAN_MODULES = ["QbiceVerif.Props.C01", "QbiceVerif.Props.NonVacuity.C01"]
 DRIVER = "drv_engine"
 HARNESS_BIN = "engine"
 SINGLE = []      # no known finding left for the acyclic engine (F1, F14 fixed by 2abe9f6, b832249)
@@ -23,8 +23,25 @@ PARTIAL = [
     "ghost invariant). That class is in the models and is compared with the implementation on every run (generator "
     "family pjchain: 280 000 cases with 0 differences between CoreFw, the full model, the oracle and the "
     "implementation). The firewall-free theorems (Qbice.Core.*) remain as PART 2.",
+    "core_query_total_partial / core_history_total_partial: TOTALITY under Shape p - for every well-formed history "
+    "(HistOK: sessions set input keys of the program only, rounds ask keys of the program only, the first operation is "
+    "a session that sets every input key) the run from the initial state IS .ok (no outOfFuel, badKey, inputNotSet, "
+    "badOp) and its outputs are the from-scratch ones (an equation, no Sat); likewise one user request from any Inv "
+    "state with all inputs set. core_all_reads_sound_partial / core_history_all_reads_sound_partial: at run level, EVERY "
+    "(dependency, value) pair handed to any executor during any user request of any history (readsU / readsRound: a "
+    "pure mirror of the uninstrumented model's recursion) is the from-scratch value - also under Shape p. Not covered: "
+    "requests while an input key was never set - the model answers .error (.inputNotSet k) (example in Props/C01), the "
+    "implementation panics ('Failed to find executor for query'); no generator produces that path (every generated "
+    "history sets all inputs in its first session), so it is not compared with the implementation.",
 ]
 ASSUMPTIONS = [
+    "state-level tie (engine_common.analyse): after every session / round the digest of the real engine's persistent "
+    "bookkeeping (per node: kind, verified in this epoch, stored value, recorded dependencies in order, observations "
+    "and whether each is still current, dirty edges from the node to ANY key, transitive firewall set, pending "
+    "backward projection, callers), read through the read-only hook qbice::verif::dump_node, must equal the digest of "
+    "the full model's state; strict for cases without order choice points, not judged (counted) for the others. Not in "
+    "the digest: the per-epoch dirtied_queries set, the computing table and lock tables (empty between ops), raw "
+    "fingerprints and timestamps (only equalities expressible through keys)",
     "fingerprints are injective on the values of a run (value = fingerprint in the models; C13)",
     "sequential driving of the engine (one task at a time; concurrency is C02)",
 ]
@@ -37,8 +54,8 @@ TRUSTED_EXTRA = [
 NAMES = {"f1": "F1", "f14": "F14", "f1+f14": "F1+F14"}
 
 
-def collect(ctx, mode="acyclic", n_quick=400, n_thorough=20000):
-    results, err = ec.run_all(ctx, mode, n_quick, n_thorough, SINGLE)
+def collect(ctx, mode="acyclic", n_quick=400, n_thorough=20000, state=True):
+    results, err = ec.run_all(ctx, mode, n_quick, n_thorough, SINGLE, state=state)
     res = vlib.Result()
     if err:
         res.disagreements.append({"harness-error": err[:2000]})
@@ -64,6 +81,17 @@ def collect(ctx, mode="acyclic", n_quick=400, n_thorough=20000):
     dist["order_sensitive_cases_matching_in_values_only"] = sum(a["order_values_only"] for a in an)
     dist["order_sensitive_cases_matching_no_order_(oracle_only)"] = sum(a["order_unresolved"] for a in an)
     dist["cases_compared_strictly"] = sum(a["cases"] - a["order_sensitive_cases"] for a in an)
+    # state-level tie (engine_common.analyse): digest of the real engine's bookkeeping = digest of the model state
+    dist["state_lines_compared"] = sum(a["state_lines"] for a in an)
+    dist["state_node_records_compared"] = sum(a["state_nodes"] for a in an)
+    dist["state_cases_compared_strictly"] = sum(a["state_cases"] for a in an)
+    dist["state_cases_skipped_order_sensitive"] = sum(a["state_skipped_cases"] for a in an)
+    dist["state_lines_skipped_order_sensitive"] = sum(a["state_skipped_lines"] for a in an)
+    dist["state_order_sensitive_cases_equal_to_ascending_model"] = sum(a["state_os_match_asc"] for a in an)
+    dist["state_order_sensitive_cases_equal_to_descending_model"] = sum(a["state_os_match_desc"] for a in an)
+    dist["state_order_sensitive_cases_equal_to_neither_(not_judged)"] = sum(a["state_os_match_neither"] for a in an)
+    dist["state_cases_without_digest_(beyond_per_shard_cap_or_crashed)"] = sum(a["state_cases_without_digest"] for a in an)
+    dist["state_disagreements"] = sum(len(a["state_disagree"]) for a in an)
     res.distribution = dist
     return res, an
 
@@ -80,6 +108,8 @@ def run(ctx):
             res.disagreements.append({"model": "full as-is", **d})
         for d in a["core_disagree"]:
             res.disagreements.append({"model": "core", **d})
+        for d in a["state_disagree"][:3]:
+            res.disagreements.append({"tie": "state digest, full as-is model", **d})
     # crashes / set-result failures reported by the harness oracle itself
     return res
 
@@ -87,7 +117,8 @@ def run(ctx):
 def search(ctx, res):
     # boosted search: 10x cases
     ctx.notes.append("boosted search after broken proof/correspondence")
-    res2, an = collect(ctx, n_quick=4000, n_thorough=40000)
+    # (the search looks for an input on which the implementation breaks the PROPERTY: oracle only, no state digests)
+    res2, an = collect(ctx, n_quick=4000, n_thorough=40000, state=False)
     out = []
     for a in an:
         for r in a["unexplained"]:
